@@ -106,9 +106,9 @@ PROPS = {
     "C14": {
         "lean_modules": ["WP.Props.C14", "WP.Props.ZeroControl"],
         "lean_support": [],
-        "families": [("afm", 40000, 2000000), ("hist", 12000, 300000), ("afc", 10000, 300000), ("xinitaf", 6000, 300000)],
+        "families": [("afm", 40000, 2000000), ("hist", 12000, 300000), ("afc", 10000, 300000), ("xinitaf", 6000, 300000), ("xadm", 4000, 200000)],
         "history": True,
-        "rule": "xinitaf: initialize_pool_with_adaptive_fee through the REAL entrypoint: the created Oracle records the pool, the tier's constants (valid by an independent re-implementation of the rules) with zeroed variables and the requested trade-enable time, which is accepted only from a permissioned tier, at most 72 h ahead and 30 s back (model `initializePoolWithAdaptiveFee`, theorem C19.init_pool_af_sound); hist op xhop with a trade-enable mode: a pool whose Oracle says trading starts later refuses a swap alone and as a leg; afm: the real FeeRateManager driven directly: new() (reference update) + four loop iterations (accumulator, total rate, bounded target, advance / advance-after-skip) + major-swap update over "
+        "rule": "xadm: set_adaptive_fee_constants through the REAL entrypoint on an Oracle whose variables are NOT at rest (accumulator 290000 of a maximum 350000): the constants stored are those that result from the (partial) request and the variables are reset, so that an accumulator kept across a lowered maximum cannot exceed it (model: C14.reset_inv); xinitaf: initialize_pool_with_adaptive_fee through the REAL entrypoint: the created Oracle records the pool, the tier's constants (valid by an independent re-implementation of the rules) with zeroed variables and the requested trade-enable time, which is accepted only from a permissioned tier, at most 72 h ahead and 30 s back (model `initializePoolWithAdaptiveFee`, theorem C19.init_pool_af_sound); hist op xhop with a trade-enable mode: a pool whose Oracle says trading starts later refuses a swap alone and as a leg; afm: the real FeeRateManager driven directly: new() (reference update) + four loop iterations (accumulator, total rate, bounded target, advance / advance-after-skip) + major-swap update over "
                 "boundary-biased valid constants (all group sizes dividing the spacing, control factor 0 / tiny / maximal, accumulator maximum 0 / around 10000 / u32::MAX / size), arbitrary stored variables "
                 "satisfying the invariant, all elapsed-time classes around filter / decay / 3600 s, both directions, zero liquidity, targets inside / at / beyond group boundaries; "
                 "hist: half of all pool histories are adaptive-fee pools (H af): per-step rate recomputed from the pre-swap oracle state by an independent implementation of the schedule, stored reference / "
